@@ -76,7 +76,8 @@ def gen(rng, tier, ctx):
         base = dec(descs[src]["desc"])
         if isinstance(base.get("rewards"), list) and base["rewards"]:
             # a near-twin: same size and shape, one player / reward / target / probability digit different
-            var, _kind = pools.variant_game(rng, base)
+            big = len(base.get("players", [])) >= 150
+            var, _kind = pools.variant_game(rng, base, "players" if (big and rng.random() < 0.6) else None)
             descs[nd - 1] = {"desc": enc(var), "tag": descs[src]["tag"] + "+variant", "share_tl_with": src}
             if rng.random() < 0.5:
                 # also share the players / final_states list objects (as `dict(g1, rewards=...)` does)
